@@ -99,7 +99,7 @@ func (c *Ctx) errPropagates(rule string, f *ssa.Function, minCalls int, globs ..
 					if strings.HasPrefix(fact, "nonnil(") {
 						cl, idx := CallOf(ifi.Cond.(*ssa.BinOp).X)
 						if cl == call && (idx == -1 || idx == n-1) {
-							if found, w := p.Reach([]Loc{{succ, 0}}, ReturnsNilConst(fnRes-1), CutSpec{}); found {
+							if found, w := p.Reach([]Loc{{B: succ}}, ReturnsNilConst(fnRes-1), CutSpec{}); found {
 								bad, witness = true, w
 							}
 
